@@ -404,6 +404,40 @@ func c06Specials(c *Case) {
 		c.Count("special_forms")
 		m2(c, &M2Case{Prog: p, Budget: 20000, Desc: "special form `" + s.text + "`"})
 	}
+	// runs of one operator with 4 and 5 operands (left to right also beyond three operands)
+	for _, op := range c06Bin {
+		for _, leaves := range [][]string{{"s", "t", "z", "x", "w"}, {"w", "x", "y", "z", "s"}, {"z", "s", "y", "t", "x"}, {"x", "y", "z", "w", "y"}} {
+			for _, n := range []int{3, 4} {
+				ops := make([]string, n)
+				for i := range ops {
+					ops[i] = op
+				}
+				c06Flat(c, mkFlat(ops, leaves, nil), "chain")
+			}
+		}
+	}
+	for _, fm := range []struct {
+		text string
+		e    Expr
+	}{
+		{"- 2.5 . floor ( )", &Unary{Op: "-", X: Meth(N("2.5"), "floor")}},
+		{"3 * - 1.5 . floor ( ) + 10", Bin("+", Bin("*", N("3"), &Unary{Op: "-", X: Meth(N("1.5"), "floor")}), N("10"))},
+		{"- 7 . floor ( )", &Unary{Op: "-", X: Meth(N("7"), "floor")}},
+		{"! 0 . floor ( )", &Unary{Op: "!", X: Meth(N("0"), "floor")}},
+		{"- 's' . length ( )", &Unary{Op: "-", X: Meth(S("s"), "length")}},
+	} {
+		if got := CanonExpr(fm.e); got != fm.text {
+			c.Violation("internal: form renders as `"+got+"`, expected `"+fm.text+"`", []string{"pinned:internal"}, nil)
+			continue
+		}
+		c.NonTrivial("special:" + fm.text)
+		p := &Program{Items: []any{&Rule{Kind: "BEGIN", Body: Blk(Pr(S("v"), fm.e))}}}
+		m2(c, &M2Case{Prog: p, Budget: 20000, Desc: "special form `" + fm.text + "`"})
+		// and glued: no white space at all
+		rd := RenderProgram(p, ParenMinimal, nil)
+		glued, _ := glueLayout(rd, nil, true)
+		m2(c, &M2Case{Prog: p, Text: glued, Budget: 20000, Desc: "special form glued `" + fm.text + "`"})
+	}
 	// calling the result of an index that is not a function is a runtime error, not a parse problem
 	p := &Program{Items: []any{&Rule{Kind: "BEGIN", Body: Blk(ES(Asg(V("a"), Arr(N("1")))), Pr(S("pre")), Pr(CallE(Idx(V("a"), N("0")), N("1"))))}}}
 	m2(c, &M2Case{Prog: p, Budget: 20000, Desc: "a[0](1)"})
@@ -412,8 +446,8 @@ func c06Specials(c *Case) {
 func c06Cases(tier string) int {
 	n := len(c06Ops)
 	pairs := n * n
-	triples := 5000
-	random := 4000
+	triples := n * n * n
+	random := 20000
 	if tier == "thorough" {
 		triples = n * n * n
 		random = 150000
@@ -440,7 +474,7 @@ func c06Run(c *Case) {
 		}
 	default:
 		nt := c06Cases(c.Tier) - 1 - n*n
-		random := 4000
+		random := 20000
 		if c.Tier == "thorough" {
 			random = 150000
 		}
@@ -448,11 +482,7 @@ func c06Run(c *Case) {
 		j := i - 1 - n*n
 		if j < ntrip {
 			var k int
-			if c.Tier == "thorough" {
-				k = j
-			} else {
-				k = c.Rng.IntN(n * n * n)
-			}
+			k = j
 			ops := []string{c06Ops[k/(n*n)], c06Ops[(k/n)%n], c06Ops[k%n]}
 			for t := 0; t < 2; t++ {
 				leaves := c06LeafPool[c.Rng.IntN(len(c06LeafPool))]
@@ -471,15 +501,12 @@ func c06Run(c *Case) {
 func init() {
 	register(&Prop{
 		ID: "C06", Level: "exploration",
-		Rule: "enumerated: a op1 b op2 c for every ordered pair of the 21 binary operators (13 value operators, && ||, is, = += -= *= /=) with 3 leaf tuples each; ordered triples (all 9261 in thorough, a 5000 sample in quick) with 2 leaf tuples; 35 prefix/suffix/parenthesis forms; sampled: random trees to depth 6 rendered minimal, full and random-redundant. Each case is checked twice: model of the intended tree vs. the implementation on the unparenthesised text (M2), and unparenthesised vs. fully parenthesised text run by the same implementation (M3). Non-trivial = discriminating: the model evaluates every other bracketing of the same token string and at least one gives a different value or outcome (random trees: at least 4 operators).",
+		Rule: "enumerated: a op1 b op2 c for every ordered pair of the 21 binary operators (13 value operators, && ||, is, = += -= *= /=) with 3 leaf tuples each; all 9261 ordered triples with 2 leaf tuples; runs of 4 and 5 operands of one operator; 40 prefix/suffix/parenthesis forms (also written without any white space); sampled: random trees to depth 6 rendered minimal, full and random-redundant. Each case is checked twice: model of the intended tree vs. the implementation on the unparenthesised text (M2), and unparenthesised vs. fully parenthesised text run by the same implementation (M3). Non-trivial = discriminating: the model evaluates every other bracketing of the same token string and at least one gives a different value or outcome (random trees: at least 4 operators).",
 		NumCases:      c06Cases,
 		Run:           c06Run,
 		MinConclusive: func(tier string) int { return 5000 },
 		Exhaustive: func(tier string) string {
-			if tier == "thorough" {
-				return "all ordered pairs and triples of binary operators"
-			}
-			return "all ordered pairs of binary operators"
+			return "all ordered pairs and triples of binary operators"
 		},
 		Assumptions: []string{"precedence table of DESIGN.md section 3.3 (from the property statement)", "leaf values are taken from a fixed pool chosen so that groupings disagree"},
 	})
